@@ -289,13 +289,13 @@ def run(chk, ctx) -> None:
     # the parser replays on its own copy of the game, in cash-game mode, with everything but dealing and betting automated
     pc = prog.cls('ACPCProtocolParser')
     pi = pc.methods.get('__post_init__')
-    ok = pi is not None and bool(m.full_assigns(pi.node, 'self.game', 'deepcopy(self.game)')) \
+    setup_ok = pi is not None and bool(m.full_assigns(pi.node, 'self.game', 'deepcopy(self.game)')) \
         and bool(m.full_assigns(pi.node, 'self.game.automations', 'self.AUTOMATIONS')) and bool(m.full_assigns(pi.node, 'self.game.mode', 'Mode.CASH_GAME'))
     order_ok = False
-    if pi is not None and ok:
+    if pi is not None and setup_ok:
         lines = {ast.unparse(st.targets[0]): st.lineno for st in pi.node.body if isinstance(st, ast.Assign)}
         order_ok = lines.get('self.game', 0) < min(lines.get('self.game.automations', 0), lines.get('self.game.mode', 0))
-    chk.ob('C17.gates', 'ACPCProtocolParser.__post_init__', ok and order_ok, pi.loc if pi else pc.loc,
+    chk.ob('C17.gates', 'ACPCProtocolParser.__post_init__', setup_ok and order_ok, pi.loc if pi else pc.loc,
            'the parser configures a private copy of the game (copied first): cash-game mode and the protocol\'s automations')
     # the result field is the payoffs as they are (str of each number, joined by `|`): no rounding, no number formatting
     rendered = bool(m.exprs(plur.node, "'|'.join(map(str, raw_payoffs))")) or bool(m.exprs(plur.node, "'|'.join(str(payoff) for payoff in raw_payoffs)"))
